@@ -1,6 +1,353 @@
+/-
+  C03 — the parsed structure follows the grammar and the precedence rules.
+
+  (a) precedence shape: every tree returned by `parse` is in the canonical form `Canon` below (an AND
+      never has an un-parenthesised OR / implicit operation as operand, an OR never an implicit one,
+      chains are flattened, `^` never applies to a prefix operator or a field, `~` only to a word or a
+      phrase, prefix operators and fields never apply to an un-parenthesised operation, a parenthesis
+      is a `FieldGroup` exactly when it directly follows `field:`, range bounds are words, phrases
+      or `-word` / `-phrase`).
+      The shape depends on how PLY resolved the conflicts of the grammar with the precedence
+      table, i.e. on the generated LALR tables. It is established by an abstract interpretation of
+      the tables: `tools_absint.py` computes a certificate (Luqum/Generated/Cert.lean), the checker
+      `certOK` re-checks it in the kernel (`cert_ok`), and the checker is proved sound for arbitrary
+      tables and certificates (`Luqum.runLoop_canon`, Luqum/Lemmas/CertRun.lean).
+  (b) translator obligations pinning what the hand-written lexer / parser models were written
+      against (regex structure, reserved words, freshness of the tables).
+  (c) a lexeme of the TERM rule is an operator token exactly when it is a reserved word.
+
+  Property theorems only; the lemmas are in Luqum/Lemmas/CertDefs, CertAct, CertRun.
+-/
 import Luqum.Model.ParserInst
+import Luqum.Generated.Cert
+import Luqum.Lemmas.CertRun
+
 namespace Luqum.Props.C03
 open Luqum
-/-- placeholder until the property theorems land: the empty input is a syntax error at the end -/
-theorem parse_empty : parse [] = .error .syntaxEnd := by rfl
+
+/-! ### (a) the canonical form -/
+
+def isOperation : Tree → Bool
+  | .op .. => true
+  | _ => false
+
+def isOperationOf (k : OpK) : Tree → Bool
+  | .op k' _ _ => k' == k
+  | _ => false
+
+def isPrefix : Tree → Bool
+  | .unary .. => true
+  | _ => false
+
+def isSearchField : Tree → Bool
+  | .field .. => true
+  | _ => false
+
+def isWord : Tree → Bool
+  | .term .word _ _ => true
+  | _ => false
+
+def isPhrase : Tree → Bool
+  | .term .phrase _ _ => true
+  | _ => false
+
+def isWordOrPhrase (t : Tree) : Bool := isWord t || isPhrase t
+
+/-- a range bound: a word, a phrase, or the prohibition (`-`) of one -/
+def isRangeBound : Tree → Bool
+  | .unary .prohibit e _ => isWordOrPhrase e
+  | t => isWordOrPhrase t
+
+/-- what an operation accepts as a direct operand: an implicit (unknown) operation no implicit one
+(it would have been flattened), an OR neither an implicit operation nor an OR, an AND no operation
+at all; `BoolOperation` is never built by the parser -/
+def operandAllowed : OpK → Tree → Bool
+  | .unk, x => !isOperationOf .unk x
+  | .or, x => !isOperationOf .unk x && !isOperationOf .or x
+  | .and, x => !isOperation x
+  | .bool, _ => false
+
+mutual
+/-- canonical form of a parse tree. The flag tells whether the node is the direct child of a
+`SearchField`: there, and only there, a parenthesis is a `FieldGroup`. -/
+def CanonAt : Bool → Tree → Bool
+  | _, .term .. => true
+  | _, .none _ => false
+  | _, .op k xs _ => decide (2 ≤ xs.length) && CanonsAt xs && xs.all (operandAllowed k)
+  | _, .unary _ e _ => CanonAt false e && !isOperation e
+  | _, .field _ e _ => CanonAt true e && !isOperation e
+  | underField, .group k e _ => ((k == .fieldGroup) == underField) && CanonAt false e
+  | _, .boost e _ _ => CanonAt false e && !isOperation e && !isPrefix e && !isSearchField e
+  | _, .approx .fuzzy e _ _ => isWord e
+  | _, .approx .proximity e _ _ => isPhrase e
+  | _, .range lo hi _ _ _ => isRangeBound lo && isRangeBound hi
+  | _, .orange _ e _ _ => isWordOrPhrase e
+def CanonsAt : List Tree → Bool
+  | [] => true
+  | x :: r => CanonAt false x && CanonsAt r
+end
+
+/-- canonical form of a whole parse tree -/
+def Canon (t : Tree) : Bool := CanonAt false t
+
+/-! #### `Canon` is the predicate of the lemma files -/
+
+private theorem isOperation_eq (t : Tree) : isOperation t = isOp' t := by cases t <;> rfl
+private theorem isOperationOf_eq (k : OpK) (t : Tree) : isOperationOf k t = isOpK k t := by cases t <;> rfl
+private theorem isPrefix_eq (t : Tree) : isPrefix t = isUnary t := by cases t <;> rfl
+private theorem isSearchField_eq (t : Tree) : isSearchField t = isField t := by cases t <;> rfl
+private theorem isWord_eq' (t : Tree) : isWord t = Luqum.isWord t := by
+  cases t with
+  | term k _ _ => cases k <;> rfl
+  | _ => rfl
+private theorem isPhrase_eq' (t : Tree) : isPhrase t = Luqum.isPhrase t := by
+  cases t with
+  | term k _ _ => cases k <;> rfl
+  | _ => rfl
+private theorem isWordOrPhrase_eq (t : Tree) : isWordOrPhrase t = isWP t := by
+  cases t with
+  | term k _ _ => cases k <;> rfl
+  | _ => rfl
+private theorem isRangeBound_eq (t : Tree) : isRangeBound t = isBound t := by
+  cases t with
+  | term k _ _ => cases k <;> rfl
+  | unary k e _ => cases k <;> simp [isRangeBound, isBound, isWordOrPhrase_eq] <;> rfl
+  | _ => rfl
+private theorem operandAllowed_eq (k : OpK) : operandAllowed k = operandOK k := by
+  funext x
+  cases k <;> simp [operandAllowed, operandOK, isOperation_eq, isOperationOf_eq]
+
+mutual
+private theorem canonAt_eq : ∀ (uf : Bool) (t : Tree), CanonAt uf t = Luqum.CanonAt uf t
+  | _, .term .. => by simp [CanonAt, Luqum.CanonAt]
+  | _, .none _ => by simp [CanonAt, Luqum.CanonAt]
+  | _, .op k xs _ => by
+      cases k
+      · simp [CanonAt, Luqum.CanonAt, canonsAt_eq xs, operandAllowed_eq,
+          show (OpK.and != OpK.bool) = true from by decide]
+      · simp [CanonAt, Luqum.CanonAt, canonsAt_eq xs, operandAllowed_eq,
+          show (OpK.or != OpK.bool) = true from by decide]
+      · simp [CanonAt, Luqum.CanonAt, canonsAt_eq xs, operandAllowed_eq,
+          show (OpK.unk != OpK.bool) = true from by decide]
+      · simp only [CanonAt, Luqum.CanonAt, show (OpK.bool != OpK.bool) = false from by decide,
+          Bool.false_and]
+        cases xs with
+        | nil => simp
+        | cons x r => simp [operandAllowed]
+  | _, .unary _ e _ => by simp [CanonAt, Luqum.CanonAt, canonAt_eq false e, isOperation_eq]
+  | _, .field _ e _ => by simp [CanonAt, Luqum.CanonAt, canonAt_eq true e, isOperation_eq]
+  | _, .group k e _ => by simp [CanonAt, Luqum.CanonAt, canonAt_eq false e]
+  | _, .boost e _ _ => by
+      simp [CanonAt, Luqum.CanonAt, canonAt_eq false e, isOperation_eq, isPrefix_eq, isSearchField_eq]
+  | _, .approx .fuzzy e _ _ => by simp [CanonAt, Luqum.CanonAt, isWord_eq']
+  | _, .approx .proximity e _ _ => by simp [CanonAt, Luqum.CanonAt, isPhrase_eq']
+  | _, .range lo hi _ _ _ => by simp [CanonAt, Luqum.CanonAt, isRangeBound_eq]
+  | _, .orange _ e _ _ => by simp [CanonAt, Luqum.CanonAt, isWordOrPhrase_eq]
+private theorem canonsAt_eq : ∀ xs : List Tree, CanonsAt xs = Luqum.CanonsAt xs
+  | [] => by simp [CanonsAt, Luqum.CanonsAt]
+  | x :: r => by simp [CanonsAt, Luqum.CanonsAt, canonAt_eq false x, canonsAt_eq r]
+end
+
+theorem canon_eq (t : Tree) : Canon t = Luqum.CanonAt false t := canonAt_eq false t
+
+/-! ### (a) the certificate for the generated tables -/
+
+/-- the certificate computed by `tools_absint.py` for the current tables -/
+def cert : Cert := { S := Generated.certS, E := Generated.certE }
+
+/-- the bit positions used by `tools_absint.py` are those of the Lean side (documentation of the
+certificate only: the soundness of the checker does not depend on it) -/
+theorem cert_shapes : Generated.certShapeNames = shapeNames := by decide
+
+/-- **kernel-checked**: the certificate is inductive for the generated LALR tables -/
+theorem cert_ok : certOK tables cert = true := by decide +kernel
+
+/-! ### (a) precedence shape -/
+
+/-- **generic soundness of the checker** (restated from `Luqum.runLoop_canon`): for ARBITRARY
+tables `T` and certificate `C` accepted by the checker, a successful run of the LALR driver from the
+initial configuration returns an item in canonical form -/
+theorem run_canon (T : Tables) (C : Cert) (hC : certOK T C = true) (fuel : Nat) (toks : List Tok)
+    (lerr : Option LexErr) (v : Val)
+    (h : runLoop T fuel { states := [0], vals := [] } toks lerr = .ok v) :
+    ∃ t, v = .item t ∧ Canon t = true := by
+  obtain ⟨t, hv, hc⟩ := runLoop_canon hC fuel toks lerr v h
+  exact ⟨t, hv, by rw [canon_eq]; exact hc⟩
+
+/-- **C03(a)**: every tree returned by the parser is in canonical form -/
+theorem parse_canon (s : Str) (t : Tree) (h : parse s = .ok t) : Canon t = true := by
+  rw [canon_eq]
+  exact parseWith_canon cert_ok s t h
+
+/-! ### (b) translator obligations -/
+
+/-- the live tables are the ones PLY generates from the grammar now in `luqum/parser.py` -/
+theorem tables_fresh : Generated.tablesFresh = true := by decide
+
+/-- PLY reduces in no state without reading the look-ahead (the model always reads it) -/
+theorem no_defaulted_states : Generated.defaultedStates = [] := by decide
+
+/-- the parsed form of PLY's master regex the lexer model was written against -/
+def expectedLexMasterTree : String := "[(BRANCH, (None, [[(SUBPATTERN, (1, 0, 0, [(MAX_REPEAT, (1, MAXREPEAT, [(IN, [(CATEGORY, CATEGORY_SPACE)])]))]))], [(SUBPATTERN, (2, 0, 0, [(SUBPATTERN, (3, 0, 0, [(BRANCH, (None, [[(IN, [(NEGATE, None), (CATEGORY, CATEGORY_SPACE), (LITERAL, 58), (LITERAL, 94), (LITERAL, 126), (LITERAL, 40), (LITERAL, 41), (LITERAL, 123), (LITERAL, 125), (LITERAL, 91), (LITERAL, 93), (LITERAL, 47), (LITERAL, 34), (LITERAL, 39), (LITERAL, 43), (LITERAL, 45), (LITERAL, 92), (LITERAL, 60), (LITERAL, 62)])], [(LITERAL, 92), (ANY, None)]])), (MAX_REPEAT, (0, MAXREPEAT, [(SUBPATTERN, (4, 0, 0, [(BRANCH, (None, [[(IN, [(NEGATE, None), (CATEGORY, CATEGORY_SPACE), (LITERAL, 58), (LITERAL, 94), (LITERAL, 92), (LITERAL, 126), (LITERAL, 40), (LITERAL, 41), (LITERAL, 123), (LITERAL, 125), (LITERAL, 91), (LITERAL, 93)])], [(LITERAL, 92), (ANY, None)], [(ASSERT, (-1, [(LITERAL, 84), (MAX_REPEAT, (2, 2, [(IN, [(CATEGORY, CATEGORY_DIGIT)])]))])), (LITERAL, 58), (MAX_REPEAT, (2, 2, [(IN, [(CATEGORY, CATEGORY_DIGIT)])])), (MAX_REPEAT, (0, 1, [(SUBPATTERN, (5, 0, 0, [(LITERAL, 58), (MAX_REPEAT, (2, 2, [(IN, [(CATEGORY, CATEGORY_DIGIT)])]))]))]))]]))]))]))]))]))], [(SUBPATTERN, (6, 0, 0, [(LITERAL, 43)]))], [(SUBPATTERN, (7, 0, 0, [(LITERAL, 45)]))], [(SUBPATTERN, (8, 0, 0, [(LITERAL, 58)]))], [(SUBPATTERN, (9, 0, 0, [(LITERAL, 40)]))], [(SUBPATTERN, (10, 0, 0, [(LITERAL, 41)]))], [(SUBPATTERN, (11, 0, 0, [(SUBPATTERN, (12, 0, 0, [(IN, [(LITERAL, 91), (LITERAL, 123)])]))]))], [(SUBPATTERN, (13, 0, 0, [(SUBPATTERN, (14, 0, 0, [(IN, [(LITERAL, 93), (LITERAL, 125)])]))]))], [(SUBPATTERN, (15, 0, 0, [(LITERAL, 62), (MAX_REPEAT, (0, 1, [(LITERAL, 61)]))]))], [(SUBPATTERN, (16, 0, 0, [(LITERAL, 60), (MAX_REPEAT, (0, 1, [(LITERAL, 61)]))]))], [(SUBPATTERN, (17, 0, 0, [(SUBPATTERN, (18, 0, 0, [(LITERAL, 34), (MAX_REPEAT, (0, MAXREPEAT, [(BRANCH, (None, [[(IN, [(NEGATE, None), (LITERAL, 92), (LITERAL, 34)])], [(LITERAL, 92), (ANY, None)]]))])), (LITERAL, 34)]))]))], [(SUBPATTERN, (19, 0, 0, [(SUBPATTERN, (20, 0, 0, [(LITERAL, 47), (MAX_REPEAT, (0, MAXREPEAT, [(BRANCH, (None, [[(IN, [(NEGATE, None), (LITERAL, 92), (LITERAL, 47)])], [(LITERAL, 92), (ANY, None)]]))])), (LITERAL, 47)]))]))], [(SUBPATTERN, (21, 0, 0, [(LITERAL, 126), (MAX_REPEAT, (0, 1, [(SUBPATTERN, (22, 0, 0, [(MAX_REPEAT, (1, MAXREPEAT, [(IN, [(RANGE, (48, 57)), (LITERAL, 46)])]))]))]))]))], [(SUBPATTERN, (23, 0, 0, [(LITERAL, 94), (MAX_REPEAT, (0, 1, [(SUBPATTERN, (24, 0, 0, [(MAX_REPEAT, (1, MAXREPEAT, [(IN, [(RANGE, (48, 57)), (LITERAL, 46)])]))]))]))]))]]))]"
+
+def expectedLexFlags : Nat := 64
+
+def expectedLexRuleOrder : List String := ["SEPARATOR", "TERM", "PLUS", "MINUS", "COLUMN", "LPAREN", "RPAREN", "LBRACKET", "RBRACKET", "GREATERTHAN", "LESSTHAN", "PHRASE", "REGEX", "APPROX", "BOOST"]
+
+def expectedLexInnerTrees : List (String × String) := [("TERM_RE", "[(SUBPATTERN, (1, 0, 0, [(BRANCH, (None, [[(IN, [(NEGATE, None), (CATEGORY, CATEGORY_SPACE), (LITERAL, 58), (LITERAL, 94), (LITERAL, 126), (LITERAL, 40), (LITERAL, 41), (LITERAL, 123), (LITERAL, 125), (LITERAL, 91), (LITERAL, 93), (LITERAL, 47), (LITERAL, 34), (LITERAL, 39), (LITERAL, 43), (LITERAL, 45), (LITERAL, 92), (LITERAL, 60), (LITERAL, 62)])], [(LITERAL, 92), (ANY, None)]])), (MAX_REPEAT, (0, MAXREPEAT, [(SUBPATTERN, (2, 0, 0, [(BRANCH, (None, [[(IN, [(NEGATE, None), (CATEGORY, CATEGORY_SPACE), (LITERAL, 58), (LITERAL, 94), (LITERAL, 92), (LITERAL, 126), (LITERAL, 40), (LITERAL, 41), (LITERAL, 123), (LITERAL, 125), (LITERAL, 91), (LITERAL, 93)])], [(LITERAL, 92), (ANY, None)], [(ASSERT, (-1, [(LITERAL, 84), (MAX_REPEAT, (2, 2, [(IN, [(CATEGORY, CATEGORY_DIGIT)])]))])), (LITERAL, 58), (MAX_REPEAT, (2, 2, [(IN, [(CATEGORY, CATEGORY_DIGIT)])])), (MAX_REPEAT, (0, 1, [(SUBPATTERN, (3, 0, 0, [(LITERAL, 58), (MAX_REPEAT, (2, 2, [(IN, [(CATEGORY, CATEGORY_DIGIT)])]))]))]))]]))]))]))]))]"), ("PHRASE_RE", "[(SUBPATTERN, (1, 0, 0, [(LITERAL, 34), (MAX_REPEAT, (0, MAXREPEAT, [(BRANCH, (None, [[(IN, [(NEGATE, None), (LITERAL, 92), (LITERAL, 34)])], [(LITERAL, 92), (ANY, None)]]))])), (LITERAL, 34)]))]"), ("REGEX_RE", "[(SUBPATTERN, (1, 0, 0, [(LITERAL, 47), (MAX_REPEAT, (0, MAXREPEAT, [(BRANCH, (None, [[(IN, [(NEGATE, None), (LITERAL, 92), (LITERAL, 47)])], [(LITERAL, 92), (ANY, None)]]))])), (LITERAL, 47)]))]"), ("APPROX_RE", "[(LITERAL, 126), (MAX_REPEAT, (0, 1, [(SUBPATTERN, (1, 0, 0, [(MAX_REPEAT, (1, MAXREPEAT, [(IN, [(RANGE, (48, 57)), (LITERAL, 46)])]))]))]))]"), ("BOOST_RE", "[(LITERAL, 94), (MAX_REPEAT, (0, 1, [(SUBPATTERN, (1, 0, 0, [(MAX_REPEAT, (1, MAXREPEAT, [(IN, [(RANGE, (48, 57)), (LITERAL, 46)])]))]))]))]")]
+
+def expectedReserved : List (String × String) := [("AND", "AND_OP"), ("NOT", "NOT"), ("OR", "OR_OP"), ("TO", "TO")]
+
+/-- the master regex of the running lexer has the structure the lexer model was written against -/
+theorem lexer_regex_ok : Generated.lexMasterTree = expectedLexMasterTree := by rfl
+theorem lexer_flags_ok : Generated.lexFlags = expectedLexFlags := by rfl
+theorem lexer_rule_order_ok : Generated.lexRuleOrder = expectedLexRuleOrder := by rfl
+theorem lexer_inner_regex_ok : Generated.lexInnerTrees = expectedLexInnerTrees := by rfl
+theorem reserved_ok : Generated.reserved = expectedReserved := by rfl
+
+/-! ### (c) reserved words -/
+
+/-- the kinds a lexeme of the TERM rule can get -/
+def isWordKind : TokK → Bool
+  | .term | .andOp | .orOp | .not | .to => true
+  | _ => false
+
+/-- a token of kind TERM / AND_OP / OR_OP / NOT / TO is a match of the TERM rule, and its kind is
+the one `reserved` gives to the lexeme -/
+theorem lexOne_word_kind {prev rest : Str} {k : TokK} {n : Nat}
+    (h : lexOne prev rest = some (.tok k n)) (hk : isWordKind k = true) :
+    termLen prev rest = some n ∧ k = reservedKind (rest.take n) := by
+  unfold lexOne at h
+  split at h
+  · cases h
+  ·
+    rename_i c r
+    by_cases h0 : isSpace c = true
+    · rw [if_pos h0] at h; cases h; try (simp [isWordKind] at hk)
+    rw [if_neg h0] at h
+    by_cases h1 : c = '+'
+    · rw [if_pos h1] at h; cases h; try (simp [isWordKind] at hk)
+    rw [if_neg h1] at h
+    by_cases h2 : c = '-'
+    · rw [if_pos h2] at h; cases h; try (simp [isWordKind] at hk)
+    rw [if_neg h2] at h
+    by_cases h3 : c = ':'
+    · rw [if_pos h3] at h; cases h; try (simp [isWordKind] at hk)
+    rw [if_neg h3] at h
+    by_cases h4 : c = '('
+    · rw [if_pos h4] at h; cases h; try (simp [isWordKind] at hk)
+    rw [if_neg h4] at h
+    by_cases h5 : c = ')'
+    · rw [if_pos h5] at h; cases h; try (simp [isWordKind] at hk)
+    rw [if_neg h5] at h
+    by_cases h6 : (decide (c = '[') || decide (c = '{')) = true
+    · rw [if_pos h6] at h; cases h; try (simp [isWordKind] at hk)
+    rw [if_neg h6] at h
+    by_cases h7 : (decide (c = ']') || decide (c = '}')) = true
+    · rw [if_pos h7] at h; cases h; try (simp [isWordKind] at hk)
+    rw [if_neg h7] at h
+    by_cases h8 : c = '>'
+    · rw [if_pos h8] at h; cases h; try (simp [isWordKind] at hk)
+    rw [if_neg h8] at h
+    by_cases h9 : c = '<'
+    · rw [if_pos h9] at h; cases h; try (simp [isWordKind] at hk)
+    rw [if_neg h9] at h
+    by_cases g0 : c = '"'
+    · rw [if_pos g0] at h
+      simp only [Option.map_eq_some_iff] at h
+      obtain ⟨m, _, he⟩ := h
+      cases he; simp [isWordKind] at hk
+    rw [if_neg g0] at h
+    by_cases g1 : c = '/'
+    · rw [if_pos g1] at h
+      simp only [Option.map_eq_some_iff] at h
+      obtain ⟨m, _, he⟩ := h
+      cases he; simp [isWordKind] at hk
+    rw [if_neg g1] at h
+    by_cases g2 : c = '~'
+    · rw [if_pos g2] at h
+      simp only [Option.map_eq_some_iff] at h
+      obtain ⟨m, _, he⟩ := h
+      cases he; simp [isWordKind] at hk
+    rw [if_neg g2] at h
+    by_cases g3 : c = '^'
+    · rw [if_pos g3] at h
+      simp only [Option.map_eq_some_iff] at h
+      obtain ⟨m, _, he⟩ := h
+      cases he; simp [isWordKind] at hk
+    rw [if_neg g3] at h
+    simp only [Option.map_eq_some_iff] at h
+    obtain ⟨m, hm, he⟩ := h
+    cases he
+    exact ⟨hm, rfl⟩
+
+/-- every other rule gives a token of another kind, so: a token comes from the TERM rule iff its
+kind is one of the five -/
+theorem reservedKind_isWordKind (w : Str) : isWordKind (reservedKind w) = true := by
+  unfold reservedKind
+  repeat' split
+  all_goals rfl
+
+theorem reservedKind_and (w : Str) : reservedKind w = .andOp ↔ w = "AND".toList := by
+  unfold reservedKind
+  repeat' split
+  all_goals simp_all
+theorem reservedKind_or (w : Str) : reservedKind w = .orOp ↔ w = "OR".toList := by
+  unfold reservedKind
+  repeat' split
+  all_goals simp_all
+theorem reservedKind_not (w : Str) : reservedKind w = .not ↔ w = "NOT".toList := by
+  unfold reservedKind
+  repeat' split
+  all_goals simp_all
+theorem reservedKind_to (w : Str) : reservedKind w = .to ↔ w = "TO".toList := by
+  unfold reservedKind
+  repeat' split
+  all_goals simp_all
+/-- a TERM-rule lexeme stays a plain term exactly when it is none of the four reserved words -/
+theorem reservedKind_term (w : Str) : reservedKind w = .term ↔
+    w ≠ "AND".toList ∧ w ≠ "OR".toList ∧ w ≠ "NOT".toList ∧ w ≠ "TO".toList := by
+  unfold reservedKind
+  repeat' split
+  all_goals simp_all
+
+/-- the reserved words of the model are those of `luqum.parser.reserved` -/
+theorem reserved_words :
+    Generated.reserved.map (fun p => (reservedKind p.1.toList).name == p.2) = [true, true, true, true] := by
+  decide
+
+/-! ### witnesses -/
+
+private def w (s : String) : Tree := .term .word s.toList {}
+private def parsesTo (s : String) (t : Tree) : Bool :=
+  match parse s.toList with
+  | .ok t' => t'.eqv t && Canon t'
+  | .error _ => false
+
+/-- `a AND b -c` is `(a AND b) -c` (before fix F4 of the precedence table it was `a AND (b -c)`) -/
+example : parsesTo "a AND b -c"
+    (.op .unk [.op .and [w "a", w "b"] {}, .unary .prohibit (w "c") {}] {}) = true := by decide +kernel
+/-- the tree the old tables gave is not canonical -/
+example : Canon (.op .and [w "a", .op .unk [w "b", .unary .prohibit (w "c") {}] {}] {}) = false := by
+  decide +kernel
+/-- AND binds tighter than OR, OR tighter than the implicit operation; chains are flattened -/
+example : parsesTo "a OR b AND c" (.op .or [w "a", .op .and [w "b", w "c"] {}] {}) = true := by
+  decide +kernel
+example : parsesTo "a OR b OR c d AND e AND f"
+    (.op .unk [.op .or [w "a", w "b", w "c"] {}, .op .and [w "d", w "e", w "f"] {}] {}) = true := by
+  decide +kernel
+/-- `^` applies to the value, not to the field; and to the operand of a prefix, not to the prefix -/
+example : parsesTo "a:b^2" (.field "a".toList (.boost (w "b") { val := { coeff := 2 } } {}) {}) = true := by
+  decide +kernel
+example : parsesTo "-a^2" (.unary .prohibit (.boost (w "a") { val := { coeff := 2 } } {}) {}) = true := by
+  decide +kernel
+/-- a parenthesis directly after `field:` is a `FieldGroup`, elsewhere a `Group` -/
+example : parsesTo "f:(a b) (c)"
+    (.op .unk [.field "f".toList (.group .fieldGroup (.op .unk [w "a", w "b"] {}) {}) {},
+               .group .group (w "c") {}] {}) = true := by decide +kernel
+/-- range bounds -/
+example : parsesTo "[-a TO \"b c\"}"
+    (.range (.unary .prohibit (w "a") {}) (.term .phrase "\"b c\"".toList {}) true false {}) = true := by
+  decide +kernel
+
 end Luqum.Props.C03
